@@ -417,3 +417,113 @@ theorem C19_count_shortcut_counterexample :
   decide
 
 end ChiModel.Purity
+
+/-! ## objects built from a caller's filter; remembered intermediate results -/
+namespace ChiModel.Ownership
+variable {α β : Type}
+
+theorem fact_other (order : List Nat) (σ : FStore β) (x : FAct) (b : Nat) (h : x.target ≠ b) :
+    fact order σ x b = σ b := by
+  cases x <;> simp [fact, construct, fset, FAct.target] at * <;> intro hb <;> exact absurd hb.symm h
+
+/-- frame: whatever is built or re-ordered elsewhere leaves the filter in cell `b` as it was -/
+theorem facts_frame (order : List Nat) (l : List FAct) (σ : FStore β) (b : Nat)
+    (h : ∀ x ∈ l, x.target ≠ b) : facts order σ l b = σ b := by
+  induction l generalizing σ with
+  | nil => rfl
+  | cons x xs ih =>
+    simp only [facts, List.foldl_cons]
+    have := ih (fact order σ x) (fun y hy => h y (List.mem_cons_of_mem _ hy))
+    simp only [facts] at this
+    rw [this, fact_other order σ x b (h x List.mem_cons_self)]
+
+/-- C19 (constructor arguments are not modified): building any number of posteriors — into cells of their
+    own — leaves the caller's filter exactly as it was. -/
+theorem C19_construct_leaves_ingredient (order : List Nat) (σ : FStore β) (src : Nat) (dsts : List Nat)
+    (h : src ∉ dsts) : facts order σ (dsts.map (FAct.build src)) src = σ src := by
+  apply facts_frame
+  intro x hx
+  obtain ⟨d, hd, rfl⟩ := List.mem_map.1 hx
+  simp only [FAct.target]
+  intro e; exact h (e ▸ hd)
+
+/-- C19 (objects built from the same ingredients evaluate alike, and are unaffected by what the caller does
+    with his filter afterwards): every posterior built from the filter in `src`, the first as the last, holds
+    `takeCols (σ src) order`, after ANY later activity (further constructions, the caller re-ordering his own
+    filter) that does not address the built object's own cell. -/
+theorem C19_constructions_agree (order : List Nat) (σ : FStore β) (src dst : Nat)
+    (before after : List FAct) (hb : ∀ x ∈ before, x.target ≠ src) (ha : ∀ x ∈ after, x.target ≠ dst) :
+    facts order σ (before ++ FAct.build src dst :: after) dst = takeCols (σ src) order := by
+  simp only [facts, List.foldl_append, List.foldl_cons]
+  have h1 := facts_frame order after (fact order (List.foldl (fact order) σ before) (FAct.build src dst)) dst ha
+  simp only [facts] at h1
+  rw [h1]
+  have h2 := facts_frame order before σ src hb
+  simp only [facts] at h2
+  simp [fact, construct, fset, h2]
+
+/-- measurement times that are already increasing (`argsort` = identity) hide the difference between
+    "order the copy" and "order the caller's filter, then copy": the pinned tests use sorted times only -/
+theorem takeCols_range : ∀ (cols : List β), takeCols cols (List.range cols.length) = cols
+  | [] => by simp [takeCols]
+  | x :: xs => by
+    have ih := takeCols_range xs
+    simp only [takeCols] at ih ⊢
+    rw [List.length_cons, List.range_succ_eq_map, List.filterMap_cons]
+    simp only [List.getElem?_cons_zero, List.filterMap_map]
+    congr 1
+
+theorem C19_in_place_invisible_for_sorted_times (σ : FStore β) (src dst : Nat) (h : dst ≠ src) (b : Nat) :
+    constructInPlace (List.range (σ src).length) σ src dst b = construct (List.range (σ src).length) σ src dst b := by
+  simp only [constructInPlace, construct, fset, takeCols_range]
+  by_cases hd : b = dst
+  · simp [hd]
+  · by_cases hs : b = src
+    · simp [hd, hs]
+    · simp [hd, hs]
+
+/-- … whereas for times that are not increasing the seeded constructor changes the caller's filter and the
+    second posterior built from it differs from the first (witness of the seeded change C19-13). -/
+theorem C19_construct_in_place_counterexample :
+    let σ : FStore Nat := fun _ => [10, 20, 30]
+    let o := [1, 2, 0]
+    let l := [FAct.build 0 1, FAct.build 0 2]
+    factsInPlace o σ l 1 = [20, 30, 10] ∧ factsInPlace o σ l 2 = [30, 10, 20] ∧ factsInPlace o σ l 0 ≠ σ 0 ∧
+    facts o σ l 1 = [20, 30, 10] ∧ facts o σ l 2 = [20, 30, 10] ∧ facts o σ l 0 = σ 0 := by
+  decide
+
+/-- invariant of a by-value cache: what is remembered is `T` of the remembered inputs -/
+def MemoOK (T : List α → β) : Option (Key α × β) → Prop
+  | none => True
+  | some (Key.val l, v) => v = T l
+  | some (Key.buffer, _) => False
+
+theorem memoStep_by_value [DecidableEq α] (T : List α → β) (m : Option (Key α × β)) (p : List α)
+    (hm : MemoOK T m) : (memoStep false T m p).2 = T p ∧ MemoOK T (memoStep false T m p).1 := by
+  match m, hm with
+  | none, _ => simp [memoStep, MemoOK]
+  | some (Key.val l, v), hv =>
+    simp only [MemoOK] at hv
+    by_cases e : l = p
+    · subst e; simp [memoStep, Key.read, MemoOK, hv]
+    · simp [memoStep, Key.read, e, MemoOK]
+
+/-- C19 (a remembered intermediate result keyed by a COPY of its inputs is invisible): for every sequence of
+    parameter vectors, each evaluation returns what a fresh object returns. -/
+theorem C19_memo_by_value_pure [DecidableEq α] (T : List α → β) (ps : List (List α)) (m : Option (Key α × β))
+    (hm : MemoOK T m) : memoSeq false T m ps = ps.map T := by
+  induction ps generalizing m with
+  | nil => rfl
+  | cons p ps ih =>
+    have h := memoStep_by_value T m p hm
+    simp only [memoSeq, List.map_cons, h.1, ih _ h.2]
+
+/-- … keyed by the array object that arrived (the wrapper's value buffer, or the caller's own array updated in
+    place) the comparison is always true and the FIRST result is returned for every later input (witness of the
+    seeded change C19-14). -/
+theorem C19_memo_by_reference_counterexample :
+    memoSeq true (fun p : List Nat => p.map (· * 2)) none [[1], [2], [3]] = [[2], [2], [2]] ∧
+    memoSeq false (fun p : List Nat => p.map (· * 2)) none [[1], [2], [3]] = [[2], [4], [6]] := by
+  decide
+
+end ChiModel.Ownership
